@@ -156,7 +156,7 @@ def run_once(cfg, chooser, seed=0, executor=None, fp=False):
         rec = Recorder()
         extra = {}
         if executor is None:
-            ex = VirtualExecutor(world, chooser=chooser, overlay=False, parallel=cfg["parallel"], batch_size=cfg["batch_size"])
+            ex = VirtualExecutor(world, chooser=chooser, overlay=False, parallel=cfg["parallel"], batch_size=cfg["batch_size"], real_futures=cfg.get("futures"))
             if fp:
                 ex.chooser = FpChooser(chooser, [ex])
         else:
@@ -224,7 +224,7 @@ def real_run(item):
 
 
 def sig(cfg, kind):
-    return dict(kind=kind, dag=cfg["dag"], parallel=cfg["parallel"], batching=cfg["batch_size"] is not None, optimize=cfg["optimize"])
+    return dict(kind=kind, dag=cfg["dag"], parallel=cfg["parallel"], batching=cfg["batch_size"] is not None, optimize=cfg["optimize"], futures=cfg.get("futures"))
 
 
 def replay_case(case):
@@ -240,6 +240,7 @@ def run(ctx):
     tier = ctx.tier
     names = QUICK if tier == "quick" else list(DAGS) + list(EXTRA)
     cfgs = [dict(dag=d, optimize=o, parallel=p, batch_size=bs) for d in names for o in (True, False) for p in (False, True) for bs in (None, 1, 2)]
+    cfgs += [dict(dag=d, optimize=False, parallel=p, batch_size=bs, futures=f) for d in names for f in ("threads", "processes") for p in (False, True) for bs in (None, 2)]
     max_dev = 2 if tier == "quick" else 3
     limit = 1500 if tier == "quick" else 20000
     res = ctx.pmap(explore_cfg, perm([(c, max_dev, limit, ctx.seed) for c in cfgs], ctx.seed))
